@@ -3,7 +3,8 @@
 # in seeded/<id>/meta.json and seeded/RESULTS.md.   usage: tools/seed_matrix.sh [seed-id ...]
 cd "$(dirname "$0")/.."
 seeds=${@:-$(ls seeded | grep -E '^C[0-9]+-[0-9]+$')}
-for s in $seeds; do
+one() {
+  s=$1
   d=seeded/$s
   checks=$(python3 -c "import json;print(' '.join(json.load(open('$d/meta.json'))['checks_expected_to_catch']))")
   out=$(timeout 1800 tools/try_patch.sh $d/patch.diff $checks 2>&1 | grep -E "CAUGHT|MISSED|BROKEN")
@@ -20,7 +21,9 @@ for l in out.splitlines():
 m['ran']="tools/try_patch.sh (git -C /repo apply; ./check <id> quick; git -C /repo checkout -- .)"
 json.dump(m,open(d+'/meta.json','w'),indent=1)
 PY
-done
+}
+export -f one
+echo $seeds | tr ' ' '\n' | xargs -P ${PAR:-4} -I{} bash -c 'one {}' 
 python3 - <<'PY'
 import json,glob,os
 rows=[]
